@@ -65,6 +65,8 @@ def str_lit(cps, bytes_mode=False):
             out.append('\\n')
         elif ch == '\t':
             out.append('\\t')
+        elif ch == '\r':
+            out.append('\\r')
         elif 32 <= c < 127:
             out.append(ch)
         else:
@@ -81,6 +83,8 @@ def _rx_char(c, in_class=False):
         return '\\n'
     if ch == '\t':
         return '\\t'
+    if ch == '\r':
+        return '\\r'
     if ch == ' ':
         return ' ' if in_class else ' '
     if in_class:
